@@ -31,6 +31,12 @@ RULES = {
 }
 
 
+def from_code(e: BaseException) -> bool:
+    """The exception comes out of the code under test: its innermost frame is in the tree under test or in
+    a library that tree called (asyncio.Queue raising QueueFull inside close(), say) - anywhere but /verif."""
+    return raised_in_code_under_test(e) or _from_stdlib(e)
+
+
 def _from_stdlib(e: BaseException) -> bool:
     """True if the innermost frame of the traceback is outside /verif (asyncio, queue, ... called by the code
     under test): such an exception is the code's behaviour, not a harness bug."""
@@ -88,6 +94,8 @@ class _Run:
         self.end: Dict[str, str] = {}          # receiver -> how it ended
         self.in_op: Dict[str, Optional[str]] = {}
         self.injected_cancel: set = set()
+        self.must_surface_cancel: set = set()     # receivers cancelled while truly blocked in the channel
+        self.direct_receivers: set = set()        # receivers calling receive() / __anext__ / async-for themselves
         self.close_seq: Optional[int] = None   # seq of the first close() the harness itself invoked
         self.close_ret_seq: Optional[int] = None
         self.closed_seen: Optional[int] = None  # seq of the first event at which ch.closed() was observed True
@@ -165,6 +173,10 @@ class _Run:
         window = blocked and fw is not None and fw.done()
         self.injected_cancel.add(tgt)
         self.ev(by, "fault", "cancel", tgt)
+        if blocked and fw is not None and not fw.done() and tgt in self.direct_receivers:
+            # truly blocked (its wake-up has not been scheduled): asyncio will throw CancelledError into
+            # receive() / __anext__ whatever happens next, and the statement says it must surface
+            self.must_surface_cancel.add(tgt)
         t.cancel()
         if blocked:
             self.stats["fault:cancel-blocked-receiver"] += 1
@@ -189,7 +201,7 @@ class _Run:
                 except asyncio.CancelledError:
                     raise
                 except Exception as e:  # noqa: BLE001
-                    if not raised_in_code_under_test(e):
+                    if not from_code(e):
                         raise
                     self.ev(a, "raise", "send", (it, type(e).__name__))
                 else:
@@ -275,7 +287,7 @@ class _Run:
         except asyncio.CancelledError:
             raise
         except Exception as e:  # noqa: BLE001
-            if not raised_in_code_under_test(e):
+            if not from_code(e):
                 raise
             self.ev(a, "raise", "send_from", type(e).__name__)
         else:
@@ -296,6 +308,8 @@ class _Run:
     async def receiver(self, a: str, cfg) -> None:
         ch = self.ch
         mode = cfg["mode"]
+        if mode not in (4, 5):
+            self.direct_receivers.add(a)
         try:
             if mode == 4:
                 await self._stub_consumer(a)
@@ -362,7 +376,7 @@ class _Run:
             self.ev(a, "raise", "actor", "CancelledError")
             self.end[a] = "cancelled" if a in self.injected_cancel else "error:CancelledError"
         except Exception as e:  # noqa: BLE001
-            if not raised_in_code_under_test(e) and not _from_stdlib(e):
+            if not from_code(e):
                 raise                      # the harness's own fault: surfaces as HARNESS, not as a verdict
             self.ev(a, "raise", "actor", f"{type(e).__name__}: {e}")
             self.end[a] = f"error:{type(e).__name__}"
@@ -527,7 +541,7 @@ class _Run:
             except ChannelClosed:
                 self.ev(a, "raise", "send_from", "ChannelClosed")
             except Exception as e:  # noqa: BLE001
-                if not raised_in_code_under_test(e):
+                if not from_code(e):
                     raise
                 self.ev(a, "raise", "send_from", type(e).__name__)
             else:
@@ -688,7 +702,7 @@ class _Run:
         for name, tk in self.recv_tasks.items():
             if tk.done() and not tk.cancelled() and tk.exception() is not None:
                 e = tk.exception()
-                if name.endswith("-sender") and (raised_in_code_under_test(e) or _from_stdlib(e)):
+                if name.endswith("-sender") and from_code(e):
                     # the library's own consumer task (_send_messages) died: its receiver side is judged
                     rule = "C12.R6" if self._had_fault() else "C12.R4"
                     raise Violation(rule, f"receiver-error:{type(e).__name__}",
@@ -791,6 +805,11 @@ class _Run:
                                 f"None, ChannelDone or end of iteration)")
             if e == "runaway":
                 raise Violation("C12.R4", "runaway", f"receiver {a} never saw the end of a closed channel")
+        for a in sorted(self.must_surface_cancel):
+            if self.end.get(a) != "cancelled":
+                raise Violation("C12.R6", "cancellation-swallowed",
+                                f"receiver {a} was cancelled while blocked in the channel, yet it ended with "
+                                f"{self.end.get(a)!r} instead of the CancelledError")
         # R4: end-of-channel only after close
         for (s, a, k, op, d) in self.events:
             if (k == "raise" and d in ("ChannelDone", "StopAsyncIteration")) or \
